@@ -10,6 +10,7 @@ DIGITS = [ord(ch) for ch in '0123456789ABCDEF']
 REQ_WIRES = ['ready', 'index_in', 'v_in', 'index_out', 'set_index_in', 'set_v_in', 'set_index_out', 'clk_pulse', 'start_resp']
 STROBES = ['set_index_in', 'set_v_in', 'set_index_out', 'clk_pulse', 'start_resp']
 REQ_CTOR = ['ready', 'valid', 'c', 'index_in', 'v_in', 'index_out', 'set_index_in', 'set_v_in', 'set_index_out', 'clk_pulse', 'start_resp']
+MIN_K = 1          # smallest response size exercised by the sweeps; set to 0 by c20.run when the size-0 probe answers '=!' (C20-F1 repaired)
 REQ_STATE = ['state', 'cur_type', 'new_c', 'temp']
 RESP_STATE = ['state', 'temp', 'temp_size', 'aux']
 
@@ -179,7 +180,7 @@ def random_resp_cfg(rng, idx):
     reqs = []
     for _ in range(rng.randint(1, 3)):
         v = rng.choice([0, (1 << wvin) - 1, rng.randint(0, (1 << wvin) - 1), 0xA5F09C36E7 & ((1 << wvin) - 1)])
-        reqs.append((v, rng.choice([1, 2, 8, rng.randint(1, 12)])))
+        reqs.append((v, 0 if (MIN_K == 0 and rng.random() < .2) else rng.choice([1, 2, 8, rng.randint(1, 12)])))
     if idx % 3 == 0 and all(k < 3 for _, k in reqs):      # make sure multi-digit responses meet every pacing
         reqs[0] = (reqs[0][0], rng.choice([4, 8, 6]))
     return with_pacing({'wvin': wvin, 'wvalid': rng.choice([1, 1, 2]), 'wv': rng.choice([8, 8, 7, 9]), 'requests': reqs,
@@ -221,7 +222,7 @@ def structured_resp_cases(rng, budget):
     base = {'wvin': 32, 'wvalid': 1, 'wv': 8, 'junk': False}
     out = []
     for pat in PACINGS:
-        for v, k in ((0x89ABCDEF, 8), (0x01234567, 8), (0xA5, 2), (0xF, 1), (0x1234, 5)):
+        for v, k in ((0x89ABCDEF, 8), (0x01234567, 8), (0xA5, 2), (0xF, 1), (0x1234, 5)) + (((0x5, 0),) if MIN_K == 0 else ()):
             out.append(with_pacing(dict(base, requests=[(v, k)]), pat))
     rest = []
     for k in range(1, 13):
